@@ -82,10 +82,23 @@ def r19_2(ctx):
         ctx.check(ok, "ansi:SGR_STYLE_MAP", f"default {'fg' if fg else 'bg'} -> {sorted(got)}", where, f"{code} <-> {want!r}", f"default colour encodes to {sorted(got)} but SGR_STYLE_MAP[{code}] = {sgr.get(code)!r}")
 
 
+def _sgr_fn(ctx):
+    """the AnsiDecoder method that interprets the SGR parameters (decode_line itself, or a helper it delegates to)"""
+    c = ctx.repo.cls("ansi:AnsiDecoder")
+    for name, lst in c.methods.items():
+        for f in lst:
+            if any(isinstance(n, ast.Compare) and norm(n.left) == "code" and isinstance(n.ops[0], ast.Eq) and isinstance(n.comparators[0], ast.Constant) and n.comparators[0].value in (0, 38) for n in walk_local(f.node)):
+                return f
+    return ctx.repo.fn("ansi:AnsiDecoder.decode_line")
+
+
 def r19_3(ctx):
     ctx.rule("R19.3", "extended colours: the decoder reads what the encoder writes - 38 fills the foreground slot and 48 the background slot of Style.from_color; selector 5 consumes one parameter through Color.from_ansi, selector 2 three parameters through Color.from_rgb (r, g, b); each branch is protected against a truncated sequence")
-    f = ctx.repo.fn("ansi:AnsiDecoder.decode_line")
+    f = _sgr_fn(ctx)
     aliases = alias_map(f.node)
+    if not any(isinstance(c, ast.Call) and norm(c.func) == "next" for c in ast.walk(f.node.body[0] if False else f.node)) and not any(
+            isinstance(c, ast.Call) and isinstance(c.func, ast.Name) and c.func.id in f.module.functions and any(isinstance(x, ast.Call) and norm(x.func) == "next" for x in ast.walk(f.module.functions[c.func.id].node)) for c in walk_local(f.node)):
+        raise AnalysisError(f"{f.fq}: the SGR parameters are not consumed through an iterator (next()); index-based parameter parsing is outside what this rule interprets - the extended-colour clause cannot be decided")
     found = {}
     for n in walk_local(f.node):
         if isinstance(n, ast.If) and isinstance(n.test, ast.Compare) and norm(n.test.left) == "code" and isinstance(n.test.ops[0], ast.Eq) and isinstance(n.test.comparators[0], ast.Constant) and n.test.comparators[0].value in (38, 48):
@@ -176,7 +189,7 @@ def r19_4(ctx):
     f = ctx.repo.fn("ansi:AnsiDecoder.decode_line")
     src = norm(f.node)
     z = None
-    for n in walk_local(f.node):
+    for n in walk_local(_sgr_fn(ctx).node):
         if isinstance(n, ast.If) and norm(n.test) == "code == 0":
             z = n
     ok = z is not None and any(isinstance(b, ast.Assign) and norm(b.targets[0]) == "self.style" and norm(b.value).endswith("Style.null()") for b in z.body)
